@@ -148,6 +148,7 @@ type vImage struct {
 }
 
 type vSnapshotter struct {
+	streamed *vImage
 	img   *vImage
 	noSS  error
 	loads int
@@ -161,7 +162,17 @@ func (s *vSnapshotter) GetSnapshot() (pb.Snapshot, error) {
 	}
 	return s.img.ss, nil
 }
-func (s *vSnapshotter) Stream(IStreamable, SSMeta, pb.IChunkSink) error { panic("stream") }
+func (s *vSnapshotter) Stream(st IStreamable, meta SSMeta, sink pb.IChunkSink) error {
+	// the image a receiver gets: the header fields ChunkWriter.getHeader/
+	// transport.Chunk copy from the meta, and the sender's current data
+	u := st.(*vUSM)
+	img := &vImage{}
+	img.ss = pb.Snapshot{Index: meta.Index, Term: meta.Term, Membership: meta.Membership, OnDiskIndex: meta.OnDiskIndex, Type: meta.Type}
+	img.sessions = append([]byte(nil), meta.Session.Bytes()...)
+	img.updates = append([]vUpd(nil), u.updates...)
+	s.streamed = img
+	return nil
+}
 func (s *vSnapshotter) Shrunk(ss pb.Snapshot) (bool, error)             { return false, nil }
 func (s *vSnapshotter) IsNoSnapshotError(err error) bool                { return err == vErrNoSnapshot }
 func (s *vSnapshotter) Save(sv ISavable, meta SSMeta) (pb.Snapshot, SSEnv, error) {
